@@ -82,8 +82,11 @@ func (r *Run) Isolated(family string, n int64, k int, childTimeout time.Duration
 	if int64(k) > n {
 		k = int(n)
 	}
-	work := filepath.Join(Root, ".work", "child-"+r.ID)
+	// one directory per run (several runs of the same check may be in progress
+	// at once when seeded changes are tried in scratch worktrees)
+	work := filepath.Join(Root, ".work", fmt.Sprintf("child-%s-%d", r.ID, os.Getpid()))
 	os.MkdirAll(work, 0o755)
+	defer os.RemoveAll(work)
 	var wg sync.WaitGroup
 	per := (n + int64(k) - 1) / int64(k)
 	var crashes int64
